@@ -141,7 +141,7 @@ def build_facts(repo="/repo", cfg="default", verbose=False):
         os.rename(tmpout, outdir)
         with open(stamp, "w") as fh:
             fh.write("%s %s\n" % (repo, time.time()))
-        _gc(os.path.join(CACHE, "facts", cfg), keep=6)
+        _gc(os.path.join(CACHE, "facts", cfg), keep=24)
     return _collect(outdir, crates), th, False
 
 
@@ -164,8 +164,17 @@ def _gc(d, keep):
 def load(path):
     with open(path) as fh:
         d = json.load(fh)
+    # a renamed private field / function is mapped back to its reviewed name (see renames.py); must precede the inliner
+    if os.environ.get("FLAN_NO_RENAMES") != "1":
+        from . import renames
+        cfg = os.path.basename(os.path.dirname(os.path.dirname(os.path.abspath(path))))
+        d["renames"] = renames.recover(d, cfg if cfg in CONFIGS else None)
     # functions that are not in the baseline of the reviewed tree are analysed as part of their callers (see inline.py)
     if os.environ.get("FLAN_NO_INLINE") != "1":
         from . import inline
         inline.inline_program(d)
+    # constant boolean joins (`matches!`, `&&`, `||`) are threaded so that flow queries do not see their infeasible paths (see normalize.py)
+    if os.environ.get("FLAN_NO_THREAD") != "1":
+        from . import normalize
+        normalize.normalize_program(d)
     return d
